@@ -153,6 +153,9 @@ let run (prop : string) (input : S.t) (observed : S.t) : S.t * string =
   | S.L [S.A "coerce"; S.A dir; t; v] ->
     let ty = cty_of t in
     let value = cv_of v in
+    (* "reql" / "reqv": the value travels through a request (literal / variable) to the resolver's
+       argument; the delivered argument is what coercion by the declared type yields *)
+    let dir = if String.length dir >= 3 && String.sub dir 0 3 = "req" then "in" else dir in
     let expected =
       if dir = "in" then
         (match Model.coerce_input ty value with
@@ -165,6 +168,7 @@ let run (prop : string) (input : S.t) (observed : S.t) : S.t * string =
       (try
          match observed with
          | S.L [S.A "err"] -> "holds"
+         | S.L [S.A "err-and-called"] -> "fails:resolver-invoked-although-the-request-could-not-be-coerced"
          | S.L [S.A "err-with-value"; _] -> "fails:unconverted-value-returned-with-the-error"
          | S.L (S.A "panic" :: _) -> "fails:panic"
          | S.L [S.A "ok"; w] ->
